@@ -22,7 +22,7 @@ MANIFEST_INFO = {
     "engine": "E",
     "design_ref": "DESIGN.md section 5, C07",
     "technique": "bounded-exhaustive enumeration: every matcher expression tree up to a depth bound x every value of its (extended, non-ASCII/control-character) domain for totality of str()/describe()/get_details()/str(MismatchError) in both verbosity modes with and without annotation, assertThat/assert_that/expectThat driven for every pair; every str/bytes over a 9-symbol alphabet up to a length bound x 3 multiline modes for the text_repr/literal_eval round trip",
-    "level_text": "All expression trees of depth <= 2 over the C06 leaf set (quick: at most 1500 per type and level) are applied to every value of their domain, extended with control characters, quotes, backslashes, astral and non-UTF-8 bytes: str(matcher) must be text for every matcher; for every mismatching pair describe() must return str, get_details() a dict of Content, and str(MismatchError) must not raise for verbose in {False, True} with and without an Annotate message; assertThat and assert_that must raise MismatchError exactly for the mismatching pairs, expectThat must never raise and the test must fail after the rest of the body and tearDown ran (for the leaf matchers also when expectThat is used in setUp before/after the up-call, in tearDown before/after the up-call or in a cleanup; those sites also under SynchronousDeferredRunTest and both AsynchronousDeferredRunTest variants on the virtual reactor). text_repr is checked on all 66k (quick) / 597k (thorough) strings and all ASCII byte strings over {a ' \" \\ LF CR e-acute NUL U+1F600} up to length 5 / 6.",
+    "level_text": "All expression trees of depth <= 2 over the C06 leaf set (quick: at most 1500 per type and level) are applied to every value of their domain, extended with control characters, quotes, backslashes, astral and non-UTF-8 bytes: str(matcher) must be text for every matcher; for every mismatching pair describe() must return str (the same one when asked again), get_details() a dict of Content, and str(MismatchError) must not raise for verbose in {False, True} with and without an Annotate message; assertThat and assert_that must raise MismatchError exactly for the mismatching pairs, expectThat must never raise and the test must fail after the rest of the body and tearDown ran (for the leaf matchers also when expectThat is used in setUp before/after the up-call, in tearDown before/after the up-call or in a cleanup; those sites also under SynchronousDeferredRunTest and both AsynchronousDeferredRunTest variants on the virtual reactor). text_repr is checked on all 66k (quick) / 597k (thorough) strings and all ASCII byte strings over {a ' \" \\ LF CR e-acute NUL U+1F600} up to length 5 / 6.",
     "level_note": "Totality only: whether a pair mismatches is taken from the implementation's own verdict (C06 decides verdicts); the text_repr alphabet holds one member of every character class its escaping logic branches on.",
 }
 
@@ -56,6 +56,9 @@ def check_pair(e, v, res):
         d = mm.describe()
         if not isinstance(d, str):
             problems.append(("describe", "%s.match(%r).describe() returned %s" % (e.name, v, type(d).__name__)))
+        elif mm.describe() != d:
+            # (a mismatch is described more than once: by a logger, then by the failure report)
+            problems.append(("describe", "%s.match(%r).describe() returned %r the first time and %r the second" % (e.name, v, d[:80], mm.describe()[:80])))
     except Exception as ex:
         problems.append(("describe", "%s.match(%r).describe() raised %s: %s" % (e.name, v, type(ex).__name__, str(ex)[:100])))
     try:
